@@ -842,7 +842,9 @@ class FuncBitRotateLeft(ValueFunc):
     def execute(self, args, environment, pos):
         a = args.getInt("a").value
         n = args.getInt("n").value
-        return ValueInt((a << n) | (a >> (32 - n)))
+        a = a & 0xFFFFFFFF
+        n = n % 32
+        return ValueInt(((a << n) | (a >> (32 - n))) & 0xFFFFFFFF)
 
 
 class FuncBitRotateRight(ValueFunc):
@@ -866,7 +868,9 @@ class FuncBitRotateRight(ValueFunc):
     def execute(self, args, environment, pos):
         a = args.getInt("a").value
         n = args.getInt("n").value
-        return ValueInt((a >> n) | (a << (32 - n)))
+        a = a & 0xFFFFFFFF
+        n = n % 32
+        return ValueInt(((a >> n) | (a << (32 - n))) & 0xFFFFFFFF)
 
 
 class FuncBitShiftLeft(ValueFunc):
